@@ -98,13 +98,18 @@ Definition sort_entries {V : Type} (l : list (prim * V)) : list (prim * V) := fo
 (** Possible answers: (may return false, may return true). *)
 Definition dset := (bool * bool)%type.
 Definition dunion (x y : dset) : dset := (fst x || fst y, snd x || snd y).
-Definition mem_addr (a : nat) (l : list nat) : bool := existsb (Nat.eqb a) l.
+(** [visited map[uintptr]bool]: keyed by the pointer of the slice's backing array (arrays, structs)
+    or of the Go map (maps). A slice pointer never equals a map pointer, so an entry is an address
+    together with the kind of object (true = map). *)
+Definition vkey := (bool * nat)%type.
+Definition mem_addr (k : vkey) (l : list vkey) : bool :=
+  existsb (fun x => Bool.eqb (fst k) (fst x) && Nat.eqb (snd k) (snd x)) l.
 
 (** [rem] = MAX_STRUCT_DEPTH + 1 - depth: the test [depth > MAX_STRUCT_DEPTH] is [rem = 0], and
     [depth+1] is [rem-1]. In the array and struct cases the [for ... range] loop body is a [return],
     so only element 0 is visited; in the map case only the first entry in Go's iteration order, i.e.
     any entry. [delete(visited, p)] is reached only for an empty map. *)
-Fixpoint detect (h : heap) (rem : nat) (visited : list nat) (v : hval) : dset :=
+Fixpoint detect (h : heap) (rem : nat) (visited : list vkey) (v : hval) : dset :=
   match rem with
   | O => (false, true)
   | S rem' =>
@@ -112,13 +117,13 @@ Fixpoint detect (h : heap) (rem : nat) (visited : list nat) (v : hval) : dset :=
     | HArr a | HStruct a =>
       match get_list h a with
       | [] => (true, false)
-      | x :: _ => if mem_addr a visited then (false, true) else detect h rem' (a :: visited) x
+      | x :: _ => if mem_addr (false, a) visited then (false, true) else detect h rem' ((false, a) :: visited) x
       end
     | HMap a =>
-      if mem_addr a visited then (false, true) else
+      if mem_addr (true, a) visited then (false, true) else
       match get_map h a with
       | [] => (true, false)
-      | es => fold_right (fun e acc => dunion (detect h rem' (a :: visited) (snd e)) acc) (false, false) es
+      | es => fold_right (fun e acc => dunion (detect h rem' ((true, a) :: visited) (snd e)) acc) (false, false) es
       end
     | _ => (true, false)
     end
@@ -474,3 +479,19 @@ Inductive reach1 (h : heap) : hval -> hval -> Prop :=
 | reach1_step v w x : child h v w -> reach h w x -> reach1 h v x.
 
 Definition cyclic (h : heap) (v : hval) : Prop := exists w, reach h v w /\ reach1 h w w.
+
+Fixpoint interop_free (t : tval) : bool :=
+  match t with
+  | TArr l | TStruct l => forallb interop_free l
+  | TMap m => forallb (fun e : prim * tval => interop_free (snd e)) m
+  | TInterop => false
+  | TPrim _ => true
+  end.
+
+(** number of nested Go calls Serialize needs for a tree: 1 for a leaf or an empty container *)
+Fixpoint theight (t : tval) : nat :=
+  match t with
+  | TArr l | TStruct l => S (list_max (map theight l))
+  | TMap m => S (list_max (map (fun e : prim * tval => theight (snd e)) m))
+  | _ => 1%nat
+  end.
